@@ -1,5 +1,10 @@
 use crate::idmap::LabelId;
 use crate::label_interner::{LabelInterner, LabelSnapshot};
+#[cfg(nervusdb_verif)]
+use crate::verif::sync::{Mutex, RwLock};
+#[cfg(nervusdb_verif)]
+use std::sync::Arc;
+#[cfg(not(nervusdb_verif))]
 use std::sync::{Arc, Mutex, RwLock};
 
 pub(crate) fn published_label_snapshot(
